@@ -26,6 +26,7 @@ extern long env_fail_from;              /* fail every tracked allocation with in
 extern long env_failed;                 /* number of allocations failed so far */
 long     env_live(void);                /* tracked allocations still live */
 void     env_live_reset(void);
+void     env_live_dump(void);                       /* with MXV_SITE_BT=1: backtraces of the live tracked blocks to stderr */
 int      env_live_sites(void **sites, int max);   /* allocation return addresses of live tracked blocks */
 void    *h_malloc(size_t n);                      /* harness-own allocations: untracked, never failed */
 void    *h_realloc(void *p, size_t n);
@@ -53,6 +54,7 @@ void  buf_free(buf_t *b);
 void  buf_add(buf_t *b, const void *p, size_t n);
 void  buf_addf(buf_t *b, const char *fmt, ...) __attribute__((format(printf, 2, 3)));
 void  buf_clear(buf_t *b);
+const char *mx_addr_func(void *addr, char *buf, size_t n); /* function containing a code address (allocation site) */
 uint64_t fnv1a(const void *p, size_t n, uint64_t h);
 #define FNV0 1469598103934665603ULL
 void  hexstr(char *out, const unsigned char *p, size_t n);  /* out needs 2n+1 */
